@@ -7,6 +7,7 @@ var (
 	FaultBudget int
 	FaultLog    []string
 	GetFaults   bool
+	CloseFaults bool
 )
 
 func InstallDisk()                  {}
